@@ -55,6 +55,7 @@ type roundRec struct {
 	owner    string // actor that ran the round
 	offered  string // what the plan held when the round began (then the default for ever)
 	def      byte
+	startCmd int // index of the command during which the round began
 	endCmd   int // index of the command during which the round ended
 }
 
@@ -288,7 +289,7 @@ func (w *world) statusObs(s erpc.Session, to int32) {
 		if a := w.byGid[curGid()]; a != nil {
 			owner = a.name
 		}
-		w.curRound = roundRec{attempts: 1, owner: owner, offered: string(w.plan), def: w.pdef}
+		w.curRound = roundRec{attempts: 1, owner: owner, offered: string(w.plan), def: w.pdef, startCmd: w.cmdIndex}
 		w.applyAttempt()
 	}
 	w.mu.Unlock()
